@@ -1108,6 +1108,22 @@ func c05Observe(p *prog, l *model.Node) {
 			p.checkHeap()
 		}
 	case 5, 6: // Contains / IndexOf
+		if r.Chance(1, 8) {
+			// needles no list ever holds as they are (native slices and maps are stored as fresh containers, the rest is
+			// refused): nothing is found, and looking is not an operation with an index that could be out of range
+			needle := []any{[]any{1}, []any{}, []int{1, 2}, []string{"a"}, []float64{2.5}, map[string]any{"a": 1}, map[string]any{}, map[string]int{"n": 1}, func() {}, struct{}{}, []at.List{at.NewList()}, &n}[r.Intn(12)]
+			gotC, gotI := true, 0
+			p.c.Count("lookups_of_values_no_list_holds")
+			pan := p.step("Contains/IndexOf", fmt.Sprintf("%s.Contains/IndexOf(%T %v)", l.Name(), needle, needle), false, func() {
+				gotC = real.Contains(needle)
+				gotI = real.IndexOf(needle)
+			})
+			if !pan && !p.failed {
+				p.expect(!gotC, "Contains", "false", fmt.Sprint(gotC))
+				p.expect(gotI == -1, "IndexOf", "-1", fmt.Sprint(gotI))
+			}
+			break
+		}
 		var v model.Val
 		if n > 0 && r.Chance(2, 3) {
 			v = l.E[r.Intn(n)]
